@@ -497,6 +497,11 @@ fn fn_matrix(container: &str, with_body: bool) -> String {
             }
         }
     }
+    // a function whose whole name is the underscore
+    for vis in FN_VIS {
+        let body = if with_body { "{}" } else { ";" };
+        src.push_str(&format!("    function _(uint a) {} {}\n", vis, body));
+    }
     if container != "file" {
         if with_body {
             src.push_str("    constructor() public {}\n    receive() external payable {}\n    fallback() external {}\n    modifier md() { _; }\n    function () public payable {}\n");
@@ -677,6 +682,13 @@ pub fn corpus_c06(tier: &str, rng: &mut Rng) -> Vec<Case> {
     // matrices: the class of a failure is derived from the declaration at the offending offset
     for c in ["contract", "abstract contract", "library", "interface"] {
         out.push(file_case(None, "variable-matrix", Kind::Mixed, c, var_matrix(c)));
+        // a state variable whose whole name is the underscore: one variable per file (names are file-wide keys in some detectors)
+        for vis in VAR_VIS {
+            for m in ["", "constant"] {
+                let init = if m.is_empty() { "" } else { " = 1" };
+                out.push(file_case(None, "underscore-only-variable-name", Kind::Mixed, c, format!("{}{} U {{\n    uint {} {} _{};\n}}\n", H, c, vis, m, init)));
+            }
+        }
         out.push(file_case(None, "function-matrix", Kind::Mixed, c, fn_matrix(c, true)));
         out.push(file_case(None, "function-matrix-no-body", Kind::Mixed, c, fn_matrix(c, false)));
     }
@@ -1131,6 +1143,9 @@ pub const PARAM_WRITES: &[(&str, Kind, &str)] = &[
 pub fn corpus_c08(tier: &str, rng: &mut Rng) -> Vec<Case> {
     let mut out = vec![];
     let cv = Some(Det::ConstantVariables);
+    // inheritance within one file: the only write sits in ANOTHER (derived / base) contract
+    out.push(file_case(cv, "written-only-in-derived-contract", Near, "file", format!("{}contract I {{\n    uint a;\n}}\ncontract J is I {{\n    function w(uint q) public {{ a = q; }}\n}}\n", H)));
+    out.push(file_case(cv, "written-only-in-derived-contract-listed-first", Near, "file", format!("{}contract J is I {{\n    function w(uint q) public {{ a += q; }}\n}}\ncontract I {{\n    uint a;\n}}\n", H)));
     // every write form in every dedicated position, on `va` (plain variable) and `vd` (also assigned in the constructor)
     for pos in WRITE_POSITIONS {
         for (form, text) in WRITE_FORMS {
@@ -1188,6 +1203,10 @@ pub fn corpus_c08(tier: &str, rng: &mut Rng) -> Vec<Case> {
     out.push(im("no-constructor", Near, "    uint a;\n    function w(uint q) public { a = q; }\n"));
     out.push(im("assigned-only-in-state-initializer", Near, "    uint a;\n    uint b = (a = 1);\n    constructor(uint q) {}\n"));
     out.push(file_case(iv, "assigned-only-in-free-function", Near, "file", format!("{}contract I {{\n    uint a;\n    constructor(uint q) {{}}\n}}\nfunction fr(uint q) {{ a = q; }}\n", H)));
+    // inheritance within one file: the write and the constructor assignment sit in DIFFERENT contracts (both orders)
+    out.push(file_case(iv, "base-function-writes-what-derived-constructor-assigns", Near, "file", format!("{}contract I {{\n    uint a;\n    function w(uint q) public {{ a = q; }}\n}}\ncontract J is I {{\n    constructor(uint q) {{ a = q; }}\n}}\n", H)));
+    out.push(file_case(iv, "derived-function-writes-what-base-constructor-assigns", Near, "file", format!("{}contract I {{\n    uint a;\n    constructor(uint q) {{ a = q; }}\n}}\ncontract J is I {{\n    function w(uint q) public {{ a = q; }}\n}}\n", H)));
+    out.push(file_case(iv, "derived-first-base-function-writes", Near, "file", format!("{}contract J is I {{\n    constructor(uint q) {{ a = q; }}\n}}\ncontract I {{\n    uint a;\n    function w(uint q) public {{ a = q; }}\n}}\n", H)));
     out.push(file_case(iv, "assigned-in-other-contracts-constructor", Canon, "file", format!("{}contract I {{\n    uint a;\n}}\ncontract J is I {{\n    constructor(uint q) {{ a = q; }}\n}}\n", H)));
     out.push(file_case(iv, "written-in-other-contracts-function", Near, "file", format!("{}contract I {{\n    uint a;\n    constructor(uint q) {{ a = q; }}\n}}\ncontract J is I {{\n    function w() public {{ a++; }}\n}}\n", H)));
     // memory_to_calldata
@@ -1710,6 +1729,20 @@ pub fn corpus_c19(tier: &str, rng: &mut Rng) -> Vec<Case> {
     for (variant, src) in same_name_variable_files() {
         out.push(file_case(None, "same-name-variables", Kind::Mixed, &format!("same-name-variable:{}", variant), src));
     }
+    // the `pragma solidity` directive placed AFTER the first item / between items / at the end (the version-gated detectors
+    // string_errors and short_revert_string must give every item the same verdict as when it is analysed alone with the pragma kept)
+    {
+        let item = |c: &str, f: &str| format!("contract {} {{\n    function {}(uint a) public pure {{\n        require(a > 0, \"a message of some length, thirty-two bytes or more\");\n        require(a > 1, \"short\");\n    }}\n}}\n", c, f);
+        for (vname, pragma) in [("0.8.10", "pragma solidity 0.8.10;\n"), ("0.7.6", "pragma solidity 0.7.6;\n")] {
+            out.push(file_case(None, "pragma-placement", Kind::Mixed, &format!("pragma-between-items:{}", vname), format!("{}{}{}", item("A", "f"), pragma, item("B", "g"))));
+            out.push(file_case(None, "pragma-placement", Kind::Mixed, &format!("pragma-after-items:{}", vname), format!("{}{}{}", item("A", "f"), item("B", "g"), pragma)));
+            out.push(file_case(None, "pragma-placement", Kind::Mixed, &format!("pragma-after-interface:{}", vname), format!("interface I {{\n    function p() external;\n}}\n{}{}{}", pragma, item("A", "f"), item("B", "g"))));
+        }
+    }
+    // a library whose only member is a constant, followed by a contract whose packing verdict would change with one more size in front
+    out.push(file_case(None, "library-then-contract", Kind::Mixed, "library-constant+packable-contract", format!("{}library L {{\n    uint128 constant K = 1;\n}}\ncontract C {{\n    uint128 a;\n    uint256 b;\n    uint128 c;\n}}\n", H)));
+    out.push(file_case(None, "library-then-contract", Kind::Mixed, "library-constant+optimal-contract", format!("{}library L {{\n    uint64 constant K = 1;\n}}\ncontract C {{\n    uint256 b;\n    uint128 a;\n    uint64 c;\n}}\n", H)));
+    out.push(file_case(None, "library-then-contract", Kind::Mixed, "interface+library-constant+packable-contract", format!("{}interface I {{\n    function p() external;\n}}\nlibrary L {{\n    uint128 constant K = 1;\n}}\ncontract C {{\n    uint128 a;\n    uint256 b;\n    uint128 c;\n}}\n", H)));
     // multi-item files of the other corpora
     for (name, t) in gen::FILE_POS {
         if t.matches("contract").count() + t.matches("interface").count() + t.matches("library").count() >= 2 {
